@@ -1,2 +1,3 @@
 import OtelVerif.Props.C09
 import OtelVerif.Props.C18
+import OtelVerif.Props.C19
